@@ -33,6 +33,8 @@ type xferOpts struct {
 	trigEdit   func(b []byte) []byte    // rewrite of the trigger as it leaves the server
 	cols       int32
 	uploadVia  int // 0 OneTimeUpload, 1 UploadFiles (drag queue + scripted shell), 2 typed paths
+	// no default download path: the file dialog opens (a stand-in dialog program on PATH decides what the user did)
+	noDefaultPath bool
 	filterOpts TrzszOptions
 	simCap     time.Duration
 	profile    transportProfile
@@ -317,7 +319,11 @@ func (x *xferWorld) start() {
 				}
 			}
 		} else {
-			x.filter.SetDefaultDownloadPath(o.dstDir)
+			if o.noDefaultPath {
+				x.filter.SetDefaultDownloadPath("")
+			} else {
+				x.filter.SetDefaultDownloadPath(o.dstDir)
+			}
 		}
 		// every relay on the path is up (and has its connector) before the user types the command
 		for i := 0; i < 1000 && len(x.relay) < o.relays; i++ {
@@ -502,7 +508,11 @@ func (x *xferWorld) nextTransfer(o *xferOpts) {
 				})
 			}
 		} else {
-			x.filter.SetDefaultDownloadPath(o.dstDir)
+			if o.noDefaultPath {
+				x.filter.SetDefaultDownloadPath("")
+			} else {
+				x.filter.SetDefaultDownloadPath(o.dstDir)
+			}
 		}
 		x.launchServer()
 	})
